@@ -478,7 +478,7 @@ def supporting(chk, P):
         chk.require(a == [["self.values", "Option::unwrap_or(Vec::pop(self.frame_stack), 0)"]], "TAB", "TAB:FramedMap::pop_frame", "truncates to the popped mark", "pop_frame truncates %s" % a)
     for fld, allowed in (("values", {FM + "set", FM + "pop_frame"}), ("frame_stack", {FM + "push_frame", FM + "pop_frame"})):
         # (the exchange of the two whole maps in swap_vars keeps each map's own invariant; it is pinned by the swap rules)
-        w = set(x[0].name.split("::{closure")[0] for x in P.field_writers("framed_map::FramedMap", fld) if not (x[3] == "mem_whole" and x[0].name == EC + "swap_vars"))
+        w = set(x[0].name.split("::{closure")[0] for x in P.field_writers("framed_map::FramedMap", fld) if not (x[3] in ("mem_whole", "call_dest_whole", "assign_whole") and x[0].name == EC + "swap_vars"))
         chk.require(w <= allowed, "WHO", "WHO:FramedMap.%s-writers" % fld, str(sorted(w)), "FramedMap.%s mutated in %s" % (fld, sorted(w - allowed)))
     for fn, callee, args in ((EC + "set", FM + "set", ["self.vars", "name", "value"]), (EC + "push_frame", FM + "push_frame", ["self.vars"]), (EC + "pop_frame", FM + "pop_frame", ["self.vars"])):
         b = P.body(fn)
